@@ -126,8 +126,8 @@ def selftest():
         e3, r3, v3 = ref.state_jd(s.jdsatepoch, s.jdsatepochF + 0.5)
         assert max(abs(a - b) for a, b in zip(r, r3)) < 1.0
     # regime classification: ISS-like is full near-Earth; 150 km perigee is the simplified model; error codes surface
-    iss = Ref("1 25544U 98067A   16124.55610684  .00003442  00000-0  58526-4 0  9995",
-              "2 25544  51.6421 216.9905 0003381  87.7267  22.6472 15.54198229997987")
+    iss = Ref("1 25544U 98067A   16124.55610684  .00003442  00000-0  58526-4 0  9992",
+              "2 25544  51.6421 216.9905 0003381  87.7267  22.6472 15.54198229997986")
     assert iss.full_near_earth() is True and 380 < iss.perigee_km < 420 and 92 < iss.period_min < 93
     low = Ref("1 28872U 05037B   05333.02012661  .25992681  00000-0  24476-3 0  1534",
               "2 28872  96.4736 157.9986 0303955 244.0492 110.6523 16.46015938 10708")
